@@ -260,6 +260,12 @@ func runC11(c *Ctx) error {
 				f := strings.Split(strings.Fields(strings.Split(impl, " | ")[0])[1], ",")
 				// id,hash,prev,merkle,height,version,time,bits,nonce,work,cum,state
 				expected = append(expected, fmt.Sprintf("ADD %s,%s,%s,%s,%s,%s,%s,%s,%s", f[1], f[2], f[3], f[4], f[5], f[6], f[8], f[10], f[11]))
+				if prod != nil {
+					// let this delivery reach the first production webhook before the next header is submitted: its connection
+					// goes back to the client's idle pool and the next delivery REUSES it (keep-alive), as in steady operation
+					waitFor(func() bool { return len(prod.posts("/first")) >= len(expected) }, 150*time.Millisecond)
+					time.Sleep(2 * time.Millisecond)
+				}
 			} else {
 				sawDupRej = true
 			}
